@@ -5,6 +5,7 @@
 //   at    <name> <coordinate words…>              both forms of field_view::at                      -> bits… | bits…
 //   (C17) chain / packfor / rebuild operations, see stackgen.py
 // All words are decimal bit patterns.
+#include "ambient.hpp"
 #include <covfie/core/backend/primitive/array.hpp>
 #include <covfie/core/backend/primitive/constant.hpp>
 #include <covfie/core/backend/primitive/identity.hpp>
@@ -93,6 +94,7 @@ std::string run(const std::string & op, const std::string & name, const In & in)
 int main() { \
   std::string line; \
   while (std::getline(std::cin, line)) { \
+    vf::ambient(); \
     std::istringstream is(line); std::string op, name; is >> op >> name; In in; \
     std::vector<u64> * cur = (op == "at") ? &in.coord : &in.cfg; std::string t; \
     while (is >> t) { if (t == ";") { cur = (cur == &in.cfg) ? &in.cells : &in.coord; continue; } cur->push_back(std::stoull(t)); } \
